@@ -151,6 +151,11 @@ func runC04(c *Ctx) {
 			for _, a := range in.(ssa.CallInstruction).Common().Args {
 				if mc, ok := strip(a).(*ssa.MakeClosure); ok {
 					expiry[mc.Fn.(*ssa.Function)] = in
+				} else if _, isCall := strip(a).(*ssa.Call); isCall {
+					// the closure is built by a factory (t.fireOnce(cb))
+					if hf, _, _ := handlerFunction(p, a); hf != nil {
+						expiry[hf] = in
+					}
 				}
 			}
 		})
@@ -174,7 +179,7 @@ func runC04(c *Ctx) {
 				c.check(!al[closedK], fn, "store in expiry closure", st.Pos(), "expiry closure of an arming that is only reached when the timer is not closed", "the expiry closure that resets the state belongs to an arming that is reachable with a closed timer")
 				continue
 			}
-			al := allowedStates(st.Block(), stateF, 3)
+			al := allowedStatesCtx(p, st, stateF, 3, 2)
 			c.check(!al[closedK], fn, "store non-closed", st.Pos(), "guarded by a test that excludes stateClosed", "a non-closed state is stored without testing that the timer is not closed: Close(); then this call revives the timer on a descriptor it no longer owns")
 		}
 	}
@@ -304,30 +309,24 @@ func runC04(c *Ctx) {
 			c.check(len(al) == 1 && al[ready], fn, "arm", in.Pos(), "the internal timer is armed only when state == stateReady", "the internal timer can be armed while the timer is scheduled or closed: an existing schedule is disturbed or a closed timer revived")
 			// state = scheduled and pendingTimers insertion on the success edge
 			armVal := in.(ssa.Value)
-			for _, a := range storesTo(fn, stateF) {
-				st := a.Instr.(*ssa.Store)
-				if k, ok := constInt(st.Val); !ok || k != scheduled {
+			hasSched, hasIns := false, false
+			for _, a := range deepStoresTo(fn, stateF) {
+				if k, ok := constInt(a.Store.Val); !ok || k != scheduled {
 					continue
 				}
-				c.check(guardedNil(st.Block(), armVal), fn, "state=scheduled", st.Pos(), "stored on the success edge of arming", "stateScheduled is stored although arming may have failed: Scheduled() reports a callback that will never run")
+				c.check(guardedNil(a.Site.Block(), armVal), fn, "state=scheduled", a.Site.Pos(), "stored on the success edge of arming", "stateScheduled is stored although arming may have failed: Scheduled() reports a callback that will never run")
+				hasSched = true
+			}
+			isInsert := func(x ssa.Instruction) bool {
+				mu, ok := x.(*ssa.MapUpdate)
+				return ok && loadOfField(mu.Map, pendingTimersF)
 			}
 			eachInstr(fn, func(x ssa.Instruction) {
-				mu, ok := x.(*ssa.MapUpdate)
-				if !ok || !loadOfField(mu.Map, pendingTimersF) {
+				if !doesDeep(x, isInsert) {
 					return
 				}
 				c.check(guardedNil(x.Block(), armVal), fn, "pendingTimers insert", x.Pos(), "inserted on the success edge of arming", "the timer is inserted into pendingTimers although arming may have failed")
-			})
-			hasSched, hasIns := false, false
-			for _, a := range storesTo(fn, stateF) {
-				if k, ok := constInt(a.Instr.(*ssa.Store).Val); ok && k == scheduled {
-					hasSched = true
-				}
-			}
-			eachInstr(fn, func(x ssa.Instruction) {
-				if mu, ok := x.(*ssa.MapUpdate); ok && loadOfField(mu.Map, pendingTimersF) {
-					hasIns = true
-				}
+				hasIns = true
 			})
 			c.check(hasSched && hasIns, fn, "arm bookkeeping", in.Pos(), "a successful arming records stateScheduled and keeps the timer alive in pendingTimers", "a successful arming does not record stateScheduled / insert into pendingTimers (second schedule would not be refused; timer may be collected while armed)")
 		})
@@ -510,8 +509,8 @@ func runC04(c *Ctx) {
 		}
 		c.check(setOnSuccess, cancel, "cancelled=true", cancel.Pos(), "Cancel flags the repeating closure on its success path", "Cancel does not set the cancelled flag on success: a repeating timer cancelled from its own callback re-arms itself")
 		cleared := false
-		for _, a := range storesTo(schedOnce, cancelledF) {
-			if isConstBool(a.Instr.(*ssa.Store).Val, false) {
+		for _, a := range deepStoresTo(schedOnce, cancelledF) {
+			if isConstBool(a.Store.Val, false) {
 				cleared = true
 			}
 		}
@@ -529,10 +528,15 @@ func runC04(c *Ctx) {
 			for _, path := range paths {
 				clears, immediate := false, false
 				for _, in := range path.Instrs() {
-					if st, ok := in.(*ssa.Store); ok {
-						if fv, _ := fieldAddrOf(st.Addr); fv == cancelledF && isConstBool(st.Val, false) {
-							clears = true
+					if doesDeep(in, func(x ssa.Instruction) bool {
+						st, ok := x.(*ssa.Store)
+						if !ok {
+							return false
 						}
+						fv, _ := fieldAddrOf(st.Addr)
+						return fv == cancelledF && isConstBool(st.Val, false)
+					}) {
+						clears = true
 					}
 					if cc, ok := in.(ssa.CallInstruction); ok && isDynamicFuncCall(cc) {
 						if _, isPrm := resolveCell(strip(cc.Common().Value)).(*ssa.Parameter); isPrm {
@@ -624,4 +628,30 @@ func isZeroValue(v ssa.Value) bool {
 		return k == 0
 	}
 	return false
+}
+
+// allowedStatesCtx: the states possible at instruction `at`, taking into account - when `at` lies in an unexported
+// helper - the guards at every call site of that helper (union over call sites, intersected with the local guards).
+func allowedStatesCtx(p *Prog, at ssa.Instruction, f *types.Var, n int, depth int) map[int64]bool {
+	local := allowedStates(at.Block(), f, n)
+	fn := at.Parent()
+	if depth == 0 || fn.Parent() != nil || fn.Object() == nil || fn.Object().Exported() {
+		return local
+	}
+	sites := p.callers(fn)
+	if len(sites) == 0 {
+		return local
+	}
+	ctx := map[int64]bool{}
+	for _, s := range sites {
+		for k := range allowedStatesCtx(p, s.(ssa.Instruction), f, n, depth-1) {
+			ctx[k] = true
+		}
+	}
+	for k := range local {
+		if !ctx[k] {
+			delete(local, k)
+		}
+	}
+	return local
 }
